@@ -108,6 +108,25 @@ void h_busy_wait(void)
 	VERIF_ASSERT(!G_unexpected_errno, "busy_wait: an unexpected errno is fatal");
 	VERIF_COVER(G_wait_calls >= 1);
 }
+/* the futex-wait loops of the call_rcu machinery: helper thread (call_rcu_wait) and rcu_barrier (call_rcu_completion_wait) */
+void h_call_rcu_wait(void)
+{
+	struct call_rcu_data c;
+	memset(&c, 0, sizeof(c));
+	mk(&c.futex, -1);
+	call_rcu_wait(&c);
+	COMMON_POST("call_rcu_wait");
+	VERIF_COVER(G_wait_calls >= 2); VERIF_COVER(G_wait_calls == 0);
+}
+void h_completion_wait(void)
+{
+	struct call_rcu_completion cm;
+	memset(&cm, 0, sizeof(cm));
+	mk(&cm.futex, -1);
+	call_rcu_completion_wait(&cm);
+	COMMON_POST("call_rcu_completion_wait");
+	VERIF_COVER(G_wait_calls >= 2); VERIF_COVER(G_wait_calls == 0);
+}
 #else
 void h_wait_gp(void)
 {
